@@ -280,6 +280,13 @@ def check(ctx):
     ok = len(st_) == 1 and isinstance(st_[0].value, ast.Call) and call_name(st_[0].value) == "MaterializedLayer" and kwarg(st_[0].value, "annotations") is not None and eqv(kwarg(st_[0].value, "annotations"), "layer.annotations")
     guard = any("layer.annotations == graph.layers[dep].annotations" in unparse(n.test) for n in ast.walk(fr) if isinstance(n, ast.If))
     ctx.ob("ANN.fuse-roots.kept", fr, "fuse_roots fuses only equally annotated layers and stores MaterializedLayer(new, annotations=layer.annotations)", ok and guard, "" if ok and guard else "the fused tasks are stored as a bare dict: HighLevelGraph wraps it without annotations, i.e. every constraint (retries, workers, resources) is loosened to nothing")
+    # ---------------- rewrite_blockwise builds the fused layer from COPIES of the root layer's mutable fields
+    rwb = (model if "model" in dir() else ctx.model).module("dask/blockwise.py").func("rewrite_blockwise")
+    for field, want in (("new_axes", "dict(inputs[root].new_axes)"), ("indices", "list(inputs[root].indices)")):
+        a_ = find(f"{field} = M_v", rwb)
+        first = min(a_, key=lambda nb: nb[0].lineno) if a_ else None
+        ok = first is not None and eqv(first[1]["M_v"], want)
+        ctx.ob("EFFECT.rewrite-blockwise.no-alias", rwb, f"{field} = {want}: a private copy that the fusion loop may extend", ok, "" if ok else f"`{field}` aliases the root layer's own object and is updated during fusion: optimize_blockwise changes the graph it was given (the unfused graph can no longer be computed)")
 
 
 VARIANTS = [
